@@ -683,6 +683,41 @@ def illegal_framing_stops_the_parser(ctx, P):
     ctx.floor(P + ':S17-2:illegal-framing:floor', 'body reader constructions in the packet iterator', n, 2)
 
 
+FIXED_GEN_UNREACHABLE = {
+    'CompressedDataFixedGenerator': 'never constructed: CompressedDataGenerator::new is only handed the length SignGenerator::len() reports, which is always None (the compressed size is not known in advance)',
+}
+
+
+def fixed_generator_held_to_length(ctx, P):
+    """A generator that writes a FIXED length header up front (`PacketHeader::new_fixed(.., source_len + ..)`) and then forwards its
+    source has announced how many octets follow.  The source may deliver another number (a file that grows or shrinks after its
+    metadata was read, files under /proc): unless the forwarding read is bounded by what is left of the announced length, the stream
+    that is written has a length that does not match the octets that follow.  In `Read::read` of every such generator the buffer
+    handed to the source derives from a length field of the generator (not only from the caller's buffer)."""
+    n = 0
+    for p, r in sorted(ctx.f.bodies.items()):
+        m = re.match(r'<packet::\w+::(\w+FixedGenerator)<R> as std::io::Read>::read$', p)
+        if not m:
+            continue
+        if m.group(1) in FIXED_GEN_UNREACHABLE:
+            ctx.ok('%s:S17-7:fixed-generator-held-to-length:%s' % (P, m.group(1)), 'R-dom', 'reviewed: ' + FIXED_GEN_UNREACHABLE[m.group(1)], function=p)
+            continue
+        b = ctx.wrap(r)
+        fwd = [(i, t) for i, t in b.calls(r'io::Read::read$') if len(t['args']) == 2 and has_origin(b.operand_origins(t['args'][0]), r'field:%s\.source$' % m.group(1))
+               and has_origin(b.operand_origins(t['args'][1]), r'^param:2$')]       # reads into the caller's buffer (a probe for the end of the source uses its own)
+        n += 1
+        bad = []
+        for i, t in fwd:
+            og = b.operand_origins(t['args'][1])
+            flds = sorted(x for x in og if re.match(r'field:%s\.(?!source$|header$|header_written$)' % m.group(1), x))
+            if not flds:
+                bad.append(i)
+        ctx.check('%s:S17-7:fixed-generator-held-to-length:%s' % (P, m.group(1)), 'R-dom', '%s bounds what it forwards from its source by a length it keeps (the header announced exactly that many octets)' % m.group(1),
+                  bool(fwd) and not bad, function=p, site=site(b, bad[0]) if bad else None,
+                  missing=None if (fwd and not bad) else 'the source is read straight into the caller\'s buffer at %s: more or fewer octets than announced are written without an error' % (site(b, bad[0]) if bad else '?'))
+    ctx.floor(P + ':S17-7:floor', 'fixed-length generators that forward a source', n, 1)
+
+
 def partial_chunk_size_bounded(ctx, P):
     """RFC 9580 4.2.1.4: a partial body length is 2^n with n <= 30 (first octet 224..254); 255 introduces a five-octet length.  A chunk
     size of 2^31 passes `>= 512 && is_power_of_two()` for a u32, and is then either written as first octet 255 (read back as a fixed
@@ -722,6 +757,7 @@ def run(ctx):
     P = 'C17'
     partial_emitters(ctx, P)
     partial_chunk_size_bounded(ctx, P)
+    fixed_generator_held_to_length(ctx, P)
     illegal_framing_stops_the_parser(ctx, P)
     message_parser_consumes_bodies(ctx, P)
     drain_error_propagates(ctx, P)
